@@ -17,14 +17,30 @@
    loop stopped).  A Python list [symbols] with a loop variable [index] is represented by the pair
    (index, rest) with rest = symbols[index:].
 
+   MACROS AND COMPTIME: assemble(symbols, macros) = parse_comptime (a pass over the flat symbol list
+   that takes out every "!= name [ args ] { template }" definition into the macro table and replaces
+   every "~ { ops }" by the symbol x<hex of assemble(ops)>), then the statement loop, in which
+   "!name [ values ]" is expanded by invoke_macro: the template with the parameters substituted is
+   joined with spaces, RE-TOKENISED (get_symbols, model/Tokenizer.v -- this file depends on it) and
+   compiled by compile_script with a FRESH macro table.  [asm_fuel] / [pn_at] below.
+   Oddities (each checked on the real compiler; proofs/AssemblerProofs.v macro_oddities):
+     M1  a template cannot invoke a macro defined outside itself (fresh table in compile_script);
+     M2  parse_comptime knows nothing of blocks or comments: definitions are taken out of IF / DEF
+         bodies and of comments; a macro can be invoked before its definition in the main code but
+         not inside a comptime block that precedes the definition;
+     M3  with a repeated parameter name the last argument wins; M4 a redefinition replaces silently;
+         macro names are case-insensitive (lower-cased), parameters are matched as whole symbols;
+     M5  "~ { ops }" at a statement position gives the symbol x.. there: unrecognized symbol.
+
    OUT OF THE MODEL (result Unm):
-     - macros ("!=" anywhere, "!name"), comptime ("~", "~!" anywhere);
+     - "~! { ops }" (runs the block on the VM);
      - float values (f prefix where the helper accepts one: OP_PUSH1-type, OP_PUSH2, OP_DIV_FLOAT);
      - "@= name [ vals ]" (the bracket form re-tokenises the joined values through get_symbols);
      - OP_WRITE_CACHE d-keys >= 2^40 (the key size is ceil(log2(k+1)/8) in floating point);
      - symbols with non-ASCII, blank or control characters outside s-values (str.isalnum /
        isnumeric / upper are modelled for ASCII only; int() and bytes.fromhex() skip whitespace;
-       get_symbols never produces a symbol with whitespace outside an s-value);
+       get_symbols never produces a symbol with whitespace outside an s-value); instantiated macro
+       templates with a non-ASCII byte (get_symbols is Unm on them);
      - exhaustion of the recursion fuel (never happens: see [assemble_r]).
    Plugins (additional_opcodes) are not modelled: with none installed the Python raises ValueError
    ("unrecognized opname") for OP_IF_ELSE / OP_TRY_EXCEPT used as instruction names; so does the model.
@@ -36,8 +52,9 @@
          (_check_push_size; before that fix the size symbol was ignored without any check, so that
          "push1 x0102 x0304 true" silently dropped a value); if fewer than two symbols follow:
          IndexError.
-     O2  parse_def prefixes "OP_" to every symbol that is an alias key, so the OP_-prefixed short
-         aliases (OP_ADD, OP_RCZ, OP_CS, ...) are rejected directly inside a DEF body.
+     O2  (FIXED in the implementation) parse_def used to prefix "OP_" to every symbol that is an
+         alias key, so that the OP_-prefixed short aliases (OP_ADD, OP_RCZ, OP_CS, ...) were rejected
+         directly inside a DEF body; it now resolves the alias through the table as parse_next does.
      O3  parse_if / parse_else / parse_try / parse_except / parse_loop accept "}" as well as their
          END_ word whatever the opening style; the "}"/END_ presence check looks at the whole rest of
          the source; a block whose terminator is missing just ends at the end of the source.
@@ -49,53 +66,10 @@
 From Coq Require Import ZArith List Bool NArith String Ascii DecimalString DecimalZ.
 From Coq.Strings Require Import Byte.
 From TS Require Import Bytes Codec Ops Names Asm Tables.
+(* re-exported: [res], the string helpers and [norm_token] used to be defined in this file *)
+From TS Require Export Tokenizer.
 Import ListNotations.
 Open Scope Z_scope.
-
-(* ---------- result type ---------- *)
-
-Inductive res (A : Type) : Type :=
-| Ok (a : A)
-| Err          (* the Python raises *)
-| Unm.         (* not modelled *)
-Arguments Ok {A} a.
-Arguments Err {A}.
-Arguments Unm {A}.
-
-Definition rbind {A B : Type} (r : res A) (f : A -> res B) : res B :=
-  match r with Ok a => f a | Err => Err | Unm => Unm end.
-Definition of_opt {A : Type} (o : option A) : res A :=
-  match o with Some a => Ok a | None => Err end.
-
-(* ---------- characters and strings (ASCII) ---------- *)
-
-Definition asc_between (lo hi : N) (c : ascii) : bool :=
-  let n := N_of_ascii c in (lo <=? n)%N && (n <=? hi)%N.
-Definition is_digit (c : ascii) : bool := asc_between 48 57 c.
-Definition is_upper (c : ascii) : bool := asc_between 65 90 c.
-Definition is_lower (c : ascii) : bool := asc_between 97 122 c.
-Definition is_alnum_c (c : ascii) : bool := is_digit c || is_upper c || is_lower c.
-Definition lower_c (c : ascii) : ascii :=
-  if is_upper c then ascii_of_N (N_of_ascii c + 32) else c.
-Definition upper_c (c : ascii) : ascii :=
-  if is_lower c then ascii_of_N (N_of_ascii c - 32) else c.
-
-Fixpoint smap (f : ascii -> ascii) (s : string) : string :=
-  match s with EmptyString => EmptyString | String c t => String (f c) (smap f t) end.
-Definition lower_s : string -> string := smap lower_c.
-Definition upper_s : string -> string := smap upper_c.
-
-Fixpoint sall (f : ascii -> bool) (s : string) : bool :=
-  match s with EmptyString => true | String c t => f c && sall f t end.
-Definition nonempty (s : string) : bool := match s with EmptyString => false | _ => true end.
-
-(* str.isnumeric / str.isalnum on ASCII strings *)
-Definition isnumeric (s : string) : bool := nonempty s && sall is_digit s.
-Definition isalnum (s : string) : bool := nonempty s && sall is_alnum_c s.
-(* printable ASCII without the space: the characters that can occur in a symbol outside s-values
-   (str.split() has removed every kind of whitespace) *)
-Definition plain_c (c : ascii) : bool := let n := N_of_ascii c in (32 <? n)%N && (n <? 128)%N.
-Definition is_ascii_s (s : string) : bool := sall plain_c s.
 
 (* int(s) for a string of ASCII digits (the caller has checked isnumeric) *)
 Definition digits_Z (s : string) : option Z :=
@@ -161,10 +135,6 @@ Fixpoint sfirstn (n : nat) (s : string) : string :=
   | S k, String c t => String c (sfirstn k t)
   | _, _ => EmptyString
   end.
-
-Definition is_prefix (p s : string) : bool := String.prefix p s.
-Fixpoint sdrop (n : nat) (s : string) : string :=
-  match n, s with S k, String _ t => sdrop k t | _, _ => s end.
 
 (* ---------- lists of symbols ---------- *)
 
@@ -237,8 +207,6 @@ Definition find_matching_brace (l : list string) (op cl : string) : option nat :
 
 (* ---------- values ---------- *)
 
-Definition dquote : ascii := """"%char.
-Definition squote : ascii := "'"%char.
 
 (* the 's' case of every helper, on the symbol without its first character [r = val[1:]]:
      if val[1] == DQ and DQ in val[2:]: val[2 : val[2:].index(DQ)+2]      (DQ = the double quote)
@@ -526,12 +494,145 @@ Section Assembler.
     let key := str name in
     rbind (len1_r key) (fun l => Ok (1%nat, opcode_byte o :: l ++ key)).
 
+  (* ---------- macros ----------
+     macros: dict name -> {'args': [...], 'template': [...]}, here an association list, newest first
+     (a redefinition shadows the older entry, as the dict assignment replaces it) *)
+  Record macro : Type := { m_args : list string; m_template : list string }.
+  Definition macros : Type := list (string * macro).
+  Fixpoint macro_lookup (name : string) (m : macros) : option macro :=
+    match m with
+    | [] => None
+    | (k, v) :: t => if String.eqb k name then Some v else macro_lookup name t
+    end.
+
+  (* str.isalnum() of a symbol in a name position: ASCII only *)
+  Definition alnum_r (s : string) : res unit :=
+    if negb (is_ascii_s s) then Unm else if isalnum s then Ok tt else Err.
+  Fixpoint all_alnum_r (l : list string) : res unit :=
+    match l with [] => Ok tt | s :: t => rbind (alnum_r s) (fun _ => all_alnum_r t) end.
+
+  (* define_macro(symbols): != name [ args ] { statements }
+       name = symbols[1].lower(); yert(name.isalnum()); yert(symbols[2] == '[')
+       closing = _find_matching_brace(symbols, '[', ']'); args = symbols[3:closing], all isalnum
+       yert(symbols[closing+1] == '{'); closing2 = _find_matching_brace(symbols, '{', '}')
+       template = symbols[closing+2:closing2]; returns closing2 + 1
+     (both searches start at the "!=" of the definition) *)
+  Definition define_macro (symbols : list string) : res (nat * string * macro) :=
+    match symbols with
+    | _ :: name0 :: s2 :: _ =>
+      let name := lower_s name0 in
+      rbind (alnum_r name) (fun _ =>
+      if String.eqb s2 "[" then
+        rbind (of_opt (find_matching_brace symbols "[" "]")) (fun closing =>
+        let args := firstn (closing - 3) (skipn 3 symbols) in
+        rbind (all_alnum_r args) (fun _ =>
+        match nth_error symbols (S closing) with
+        | Some ob =>
+          if String.eqb ob "{" then
+            rbind (of_opt (find_matching_brace symbols "{" "}")) (fun closing2 =>
+              Ok (S closing2, name,
+                  {| m_args := args;
+                     m_template := firstn (closing2 - (closing + 2)) (skipn (closing + 2) symbols) |}))
+          else Err
+        | None => Err                                  (* symbols[closing+1]: IndexError *)
+        end))
+      else Err)
+    | _ => Err                                         (* symbols[1] / symbols[2]: IndexError *)
+    end.
+
+  (* args = {a: v for a, v in zip(names, values)}: with a repeated name the LAST value wins *)
+  Fixpoint subst_lookup (s : string) (names vals : list string) : option string :=
+    match names, vals with
+    | a :: names', v :: vals' =>
+      match subst_lookup s names' vals' with
+      | Some w => Some w
+      | None => if String.eqb a s then Some v else None
+      end
+    | _, _ => None
+    end.
+  Definition instantiate (mac : macro) (vals : list string) : list string :=
+    map (fun s => match subst_lookup s (m_args mac) vals with Some v => v | None => s end)
+        (m_template mac).
+
+  (* ' '.join(src) *)
+  Fixpoint join_spaces (l : list string) : string :=
+    match l with
+    | [] => EmptyString
+    | [s] => s
+    | s :: t => (s ++ String " " (join_spaces t))%string
+    end.
+
+  (* invoke_macro(symbols, macros): !name [ args ]
+       name = symbols[0][1:].lower(); yert(name in macros); yert(symbols[1] == '[')
+       closing = _find_matching_brace(symbols, '[', ']'); args = symbols[2:closing]
+       yert(len(args) == len(macros[name]['args'])); substitute; code = compile_script(' '.join(src))
+     [compile] is compile_script: get_symbols, then assemble with a FRESH macro table (M1) *)
+  Definition invoke_macro (m : macros) (compile : string -> res bytes) (symbols : list string)
+    : res (nat * bytes) :=
+    match symbols with
+    | s0 :: rest =>
+      match macro_lookup (lower_s (sdrop 1 s0)) m with
+      | None => Err
+      | Some mac =>
+        match rest with
+        | s1 :: _ =>
+          if String.eqb s1 "[" then
+            rbind (of_opt (find_matching_brace symbols "[" "]")) (fun closing =>
+            let vals := firstn (closing - 2) (skipn 2 symbols) in
+            if (List.length vals =? List.length (m_args mac))%nat then
+              rbind (compile (join_spaces (instantiate mac vals))) (fun code => Ok (S closing, code))
+            else Err)
+          else Err
+        | [] => Err                                    (* symbols[1]: IndexError *)
+        end
+      end
+    | [] => Err
+    end.
+
+  (* parse_comptime(symbols, macros): one pass over the FLAT list of symbols, whatever the nesting
+     (M2): every "!=" defines a macro and is removed together with its definition; every
+     "~ { ops }" is replaced by the symbol x<hex of assemble(ops)> (the block is assembled with the
+     macro table as it is at that point, and definitions inside it stay visible afterwards);
+     "~! { ops }" runs the block on the VM: not modelled.  [asm_rec] is assemble, returning the
+     (possibly extended) macro table as well. *)
+  Fixpoint comptime (asm_rec : macros -> list string -> res (macros * bytes)) (n : nat)
+      (m : macros) (syms : list string) : res (macros * list string) :=
+    match syms with
+    | [] => Ok (m, [])
+    | s :: rest =>
+      match n with
+      | O => Unm
+      | S n' =>
+        if String.eqb s "!=" then
+          rbind (define_macro syms) (fun '(adv, name, mac) =>
+            comptime asm_rec n' ((name, mac) :: m) (skipn adv syms))
+        else if String.eqb s "~" || String.eqb s "~!" then
+          match rest with
+          | ob :: _ =>
+            if String.eqb ob "{" then
+              rbind (of_opt (find_matching_brace syms "{" "}")) (fun e =>
+                if String.eqb s "~!" then Unm
+                else
+                  rbind (asm_rec m (firstn (e - 2) (skipn 2 syms))) (fun '(m1, code) =>
+                  rbind (comptime asm_rec n' m1 (skipn (S e) syms)) (fun '(m2, new) =>
+                    Ok (m2, String "x" (hex code) :: new))))
+            else Err
+          | [] => Err                                  (* symbols[index+1]: IndexError *)
+          end
+        else rbind (comptime asm_rec n' m rest) (fun '(m1, new) => Ok (m1, s :: new))
+      end
+    end.
+
   (* ---------- statements ---------- *)
 
   Section Level.
     (* assemble (for hoisted conditions) and parse_next one nesting level down *)
     Variable asm_rec : list string -> res bytes.
     Variable pn : string -> list string -> res (nat * bytes).
+    (* the macro table (read only while statements are parsed: parse_comptime has removed every
+       definition) and compile_script, for macro invocations *)
+    Variable macs : macros.
+    Variable compile : string -> res bytes.
 
     (* the statement loop shared by parse_else / parse_except / parse_loop:
          while index < len(symbols):
@@ -691,7 +792,8 @@ Section Assembler.
 
     (* the loop of parse_def:  while index <= search_idx:
          comment symbol: index = symbols.index(current_symbol, index+1) + 1; continue
-         if current_symbol in opcode_aliases: current_symbol = 'OP_' + current_symbol   (O2)
+         if current_symbol in opcode_aliases: current_symbol = opcode_aliases[current_symbol]
+           (before the fix of finding A4 this was 'OP_' + current_symbol: oddity O2)
          yert(current_symbol != 'OP_DEF')
          '}' / 'END_DEF': break
          else parse_next(current_symbol, ...) *)
@@ -710,7 +812,7 @@ Section Assembler.
               | None => Err
               end
             else
-              let c' := if is_alias c then ("OP_" ++ c)%string else c in
+              let c' := match alias_of c with Some t => t | None => c end in
               if String.eqb c' "OP_DEF" then Err
               else if mem c' ["}"; "END_DEF"] then Ok []
               else
@@ -740,7 +842,7 @@ Section Assembler.
       end.
 
     (* parse_next(current_symbol, symbols, symbol_index, index) with tail = symbols[index:];
-       current_symbol is symbols[index] except when parse_def has prefixed it (O2) *)
+       current_symbol is symbols[index] except when parse_def has resolved an alias *)
     Definition parse_next (cur : string) (tail : list string) : res (nat * bytes) :=
       if is_comment cur then
         (* advance = symbols.index(current_symbol, index+1) + 1 - index *)
@@ -752,13 +854,13 @@ Section Assembler.
         | String c0 crest =>
           (* the yert "unrecognized symbol" and the dispatch: symbols starting with @ or ! *)
           if String.eqb c "@=" then set_variable tail
-          else if String.eqb c "!=" then Unm
+          else if String.eqb c "!=" then Unm   (* unreachable: parse_comptime has removed every "!=" *)
           else if is_prefix "@#" c then
             if isalnum (sdrop 2 c) then read_variable O_READ_CACHE_SIZE (sdrop 2 c) else Err
           else if Ascii.eqb c0 "@" then
             if isalnum crest then read_variable O_READ_CACHE crest else Err
           else if Ascii.eqb c0 "!" then
-            if isalnum crest then Unm else Err
+            if isalnum crest then invoke_macro macs compile tail else Err
           else if String.eqb c "OP_PUSH" then
             instr_push (tl tail)
           else if String.eqb c "OP_TRY" then parse_try tail
@@ -800,53 +902,51 @@ Section Assembler.
       end
     end.
 
-  (* parse_next with [f] levels of nesting available *)
-  Fixpoint pn_fuel (f : nat) : string -> list string -> res (nat * bytes) :=
-    match f with
-    | O => fun _ _ => Unm
-    | S f' =>
-      parse_next (fun syms => asm_loop (pn_fuel f') (List.length syms) syms) (pn_fuel f')
-    end.
+  Definition code_of (r : res (macros * bytes)) : res bytes := rbind r (fun '(_, code) => Ok code).
 
-  (* parse_comptime is the identity unless a symbol is "~", "~!" or "!="; s-values may hold any
-     bytes, every other symbol must be printable ASCII without blanks *)
+  Section Fuel.
+    (* get_symbols (model/Tokenizer.v), for the re-tokenisation of instantiated templates *)
+    Let gsym := get_symbols.
+
+    (* assemble(symbols, macros) with [f] levels of nesting available: parse_comptime, then the loop;
+       returns the macro table after parse_comptime (the dict is shared with the callers);
+       parse_next with table m:
+         hoisted conditions: assemble(condition, macros);
+         invocations: compile_script(text) = assemble(get_symbols(text), macros={}) *)
+    Fixpoint asm_fuel (f : nat) (m : macros) (syms : list string) {struct f} : res (macros * bytes) :=
+      match f with
+      | O => Unm
+      | S f' =>
+        rbind (comptime (asm_fuel f') (List.length syms) m syms) (fun '(m1, new) =>
+        rbind (asm_loop (pn_at f' m1) (List.length new) new) (fun code => Ok (m1, code)))
+      end
+    with pn_at (f : nat) (m : macros) {struct f} : string -> list string -> res (nat * bytes) :=
+      match f with
+      | O => fun _ _ => Unm
+      | S f' =>
+        parse_next (fun syms => code_of (asm_fuel f' m syms)) (pn_at f' m) m
+                   (fun text => rbind (gsym text) (fun syms => code_of (asm_fuel f' [] syms)))
+      end.
+  End Fuel.
+
+  (* s-values may hold any bytes, every other symbol must be printable ASCII without blanks *)
   Definition unmodelled_symbol (s : string) : bool :=
-    mem s ["~"; "~!"; "!="]
-    || (negb (is_ascii_s s)
-        && negb (match s with String c _ => Ascii.eqb (lower_c c) "s" | _ => false end)).
+    negb (is_ascii_s s)
+    && negb (match s with String c _ => Ascii.eqb (lower_c c) "s" | _ => false end).
 
-  (* every nested parser consumes its keyword before it recurses, so the nesting depth is at most
-     the number of symbols: the fuel never runs out *)
+  (* every nested parser, comptime block and macro invocation consumes symbols of the source before
+     it recurses (a template can only invoke macros defined inside itself: M1), so the recursion
+     depth is bounded by the number of symbols: the fuel never runs out *)
   Definition assemble_r (syms : list string) : res bytes :=
     if existsb unmodelled_symbol syms then Unm
-    else asm_loop (pn_fuel (S (List.length syms))) (List.length syms) syms.
+    else code_of (asm_fuel (2 * List.length syms + 2) [] syms).
 
   Definition assemble (syms : list string) : option bytes :=
     match assemble_r syms with Ok b => Some b | _ => None end.
-End Assembler.
 
-(* ---------- the per-token casing rule of get_symbols (tokens that are not string literals) ----------
-     token[0] not in ('s','d','x','!','@')           -> upper
-     d and not token[1:].isnumeric()                 -> upper
-     x and not is_hex(token[1:])                     -> upper   (is_hex pads an odd length with a 0)
-     s and token[1] not a double or single quote     -> upper
-     else unchanged      ("@=" / "!=" also take the next token unchanged: not a per-token rule) *)
-Definition is_hex_s (s : string) : bool :=
-  sall (fun c => match unnib (lower_c c) with Some _ => true | None => false end) s.
-Definition norm_token (t : string) : string :=
-  match t with
-  | EmptyString => t
-  | String c r =>
-    if Ascii.eqb c "d" then (if isnumeric r then t else upper_s t)
-    else if Ascii.eqb c "x" then (if is_hex_s r then t else upper_s t)
-    else if Ascii.eqb c "s" then
-      match r with
-      | String q _ => if Ascii.eqb q dquote || Ascii.eqb q squote then t else upper_s t
-      | EmptyString => t       (* token[1]: IndexError in the Python; no such symbol is produced *)
-      end
-    else if Ascii.eqb c "!" || Ascii.eqb c "@" then t
-    else upper_s t
-  end.
+  (* compile_script(script) = assemble(get_symbols(script), macros={}) *)
+  Definition compile_text (text : string) : res bytes := rbind (get_symbols text) assemble_r.
+End Assembler.
 
 (* ---------- self-tests: sources run through the real compiler ----------
    cd /repo && PYTHONPATH=/repo /venv/bin/python -c "from tapescript import parsing as P; ..."
@@ -855,11 +955,10 @@ Definition asm_hex (syms : list string) : option string := option_map hex (assem
 
 Local Open Scope string_scope.
 
-(* the expected results are those of the compiler WITH the _check_push_size fix.
-   accepted sources (13 and 14 are accepted although they should not be: see the findings in
-   proofs/AssemblerProofs.v), then rejected ones (15 to 17: size operand of OP_PUSH1 / OP_PUSH2 that is
-   not the length of the value, mis-assembled before the fix; 18 to 21 are rejected although they
-   should not be) *)
+(* the expected results are those of the current compiler (with the fixes of findings A1/A2: size
+   operand of OP_PUSH1 / OP_PUSH2 checked, and A4: aliases in DEF bodies).  Sources 13 and 14 are
+   accepted although they should not be (see the findings in proofs/AssemblerProofs.v); 15 to 17 are
+   the size mismatches (mis-assembled before the fix); 19 to 21 are rejected although they should not be *)
 (* if ( true ) { push d1 } else { push x0102 } @= k 1 @k *)
 Example selftest_01 : asm_hex
   ["IF"; "("; "TRUE"; ")"; "{"; "PUSH"; "d1"; "}"; "ELSE"; "{"; "PUSH"; "x0102"; "}"; "@="; "k"; "1"; "@k"]
@@ -948,7 +1047,7 @@ Proof. vm_compute. reflexivity. Qed.
 (* def 0 { op_rcz x01 } *)
 Example selftest_18 : asm_hex
   ["DEF"; "0"; "{"; "OP_RCZ"; "x01"; "}"]
-  = None.
+  = Some "290000030b0101".
 Proof. vm_compute. reflexivity. Qed.
 (* try true end_try *)
 Example selftest_19 : asm_hex
@@ -1003,5 +1102,77 @@ Proof. vm_compute. reflexivity. Qed.
 (* nop91 d1 *)
 Example selftest_29 : asm_hex
   ["NOP91"; "d1"]
+  = None.
+Proof. vm_compute. reflexivity. Qed.
+
+(* macros and comptime blocks *)
+(* != m [ a ] { push a } !m [ d1 ] !m [ x0102 ] true *)
+Example selftest_m01 : asm_hex
+  ["!="; "m"; "["; "A"; "]"; "{"; "PUSH"; "A"; "}"; "!m"; "["; "d1"; "]"; "!m"; "["; "x0102"; "]"; "TRUE"]
+  = Some "02010302010201".
+Proof. vm_compute. reflexivity. Qed.
+(* push ~ { true false } != unused [ q ] { dup } not *)
+Example selftest_m02 : asm_hex
+  ["PUSH"; "~"; "{"; "TRUE"; "FALSE"; "}"; "!="; "unused"; "["; "Q"; "]"; "{"; "DUP"; "}"; "NOT"]
+  = Some "030201002e".
+Proof. vm_compute. reflexivity. Qed.
+(* != m [ ] { true } != m [ ] { false } !M [ ] *)
+Example selftest_m03 : asm_hex
+  ["!="; "m"; "["; "]"; "{"; "TRUE"; "}"; "!="; "m"; "["; "]"; "{"; "FALSE"; "}"; "!M"; "["; "]"]
+  = Some "00".
+Proof. vm_compute. reflexivity. Qed.
+(* != m [ a ] { != n [ b ] { push b } !n [ a ] } !m [ d1 ] *)
+Example selftest_m04 : asm_hex
+  ["!="; "m"; "["; "A"; "]"; "{"; "!="; "n"; "["; "B"; "]"; "{"; "PUSH"; "B"; "}"; "!n"; "["; "A"; "]"; "}"; "!m"; "["; "d1"; "]"]
+  = Some "0201".
+Proof. vm_compute. reflexivity. Qed.
+(* if { != m [ ] { true } } !m [ ] *)
+Example selftest_m05 : asm_hex
+  ["IF"; "{"; "!="; "m"; "["; "]"; "{"; "TRUE"; "}"; "}"; "!m"; "["; "]"]
+  = Some "2b000001".
+Proof. vm_compute. reflexivity. Qed.
+(* != m [ a a ] { push a } !m [ d1 d2 ] *)
+Example selftest_m06 : asm_hex
+  ["!="; "m"; "["; "A"; "A"; "]"; "{"; "PUSH"; "A"; "}"; "!m"; "["; "d1"; "d2"; "]"]
+  = Some "0202".
+Proof. vm_compute. reflexivity. Qed.
+(* != m [ a ] { if ( a ) { push s"x y" } } loop { !m [ true ] } *)
+Example selftest_m07 : asm_hex
+  ["!="; "m"; "["; "A"; "]"; "{"; "IF"; "("; "A"; ")"; "{"; "PUSH"; "s""x y"""; "}"; "}"; "LOOP"; "{"; "!m"; "["; "TRUE"; "]"; "}"]
+  = Some "450009012b00050303782079".
+Proof. vm_compute. reflexivity. Qed.
+(* != m [ ] { push ~ { true } } !m [ ] push ~ { != k [ ] { false } push d5 } !k [ ] *)
+Example selftest_m08 : asm_hex
+  ["!="; "m"; "["; "]"; "{"; "PUSH"; "~"; "{"; "TRUE"; "}"; "}"; "!m"; "["; "]"; "PUSH"; "~"; "{"; "!="; "k"; "["; "]"; "{"; "FALSE"; "}"; "PUSH"; "d5"; "}"; "!k"; "["; "]"]
+  = Some "02010302020500".
+Proof. vm_compute. reflexivity. Qed.
+(* != m [ a ] { push a } != n [ b ] { !m [ b ] } !n [ d1 ] *)
+Example selftest_m09 : asm_hex
+  ["!="; "m"; "["; "A"; "]"; "{"; "PUSH"; "A"; "}"; "!="; "n"; "["; "B"; "]"; "{"; "!m"; "["; "B"; "]"; "}"; "!n"; "["; "d1"; "]"]
+  = None.
+Proof. vm_compute. reflexivity. Qed.
+(* push ~ { !m [ ] } != m [ ] { true } *)
+Example selftest_m10 : asm_hex
+  ["PUSH"; "~"; "{"; "!m"; "["; "]"; "}"; "!="; "m"; "["; "]"; "{"; "TRUE"; "}"]
+  = None.
+Proof. vm_compute. reflexivity. Qed.
+(* # != # true *)
+Example selftest_m11 : asm_hex
+  ["#"; "!="; "#"; "TRUE"]
+  = None.
+Proof. vm_compute. reflexivity. Qed.
+(* ~ { true } *)
+Example selftest_m12 : asm_hex
+  ["~"; "{"; "TRUE"; "}"]
+  = None.
+Proof. vm_compute. reflexivity. Qed.
+(* != m [ a ] { push a } !m [ d1 d2 ] *)
+Example selftest_m13 : asm_hex
+  ["!="; "m"; "["; "A"; "]"; "{"; "PUSH"; "A"; "}"; "!m"; "["; "d1"; "d2"; "]"]
+  = None.
+Proof. vm_compute. reflexivity. Qed.
+(* !q [ ] *)
+Example selftest_m14 : asm_hex
+  ["!q"; "["; "]"]
   = None.
 Proof. vm_compute. reflexivity. Qed.
